@@ -529,6 +529,29 @@ func TestVerif_C30(t *testing.T) {
 
 	c30Arithmetic(r)
 
+	// L1 (prerequisite of "a reported change applies to each peer"): report must return.  A report
+	// that names a peer absent from the node table is probed once under a watchdog; if it does not
+	// return, that is recorded and such reports are not executed during the exploration (a blocked
+	// PeerSet cannot be explored further); every other hang is caught by the explorer's own watchdog.
+	reportUnknownHangs := false
+	{
+		fin, pmsg := verifmc.WithWatchdog(5*time.Second, func() {
+			s := c30Fresh(c30Cfg{1, 1, false})
+			c30Apply(s, c30Op{kind: "report", peers: []int{0}, delta: -1})
+			c30Release(s)
+		})
+		switch {
+		case !fin:
+			reportUnknownHangs = true
+			r.Violate("report:never-returns-for-peer-absent-from-node-table",
+				"report(-1;p1) on a fresh PeerSet did not return within 5s (PeersState.addReputation holds the PeersState lock and calls insertPeer, which locks it again)",
+				[]string{"report(-1;p1)"})
+			r.Outcome("report:hang-on-unknown-peer")
+		case pmsg != "":
+			r.Violate("report:panic:"+verifmc.PanicSite(pmsg), pmsg, []string{"report(-1;p1)"})
+		}
+	}
+
 	for in := uint32(0); in <= maxSlots; in++ {
 		for out := uint32(0); out <= maxSlots; out++ {
 			for _, ro := range []bool{false, true} {
@@ -539,19 +562,34 @@ func TestVerif_C30(t *testing.T) {
 						// dry run of every base operation to learn whether an iteration order can matter
 						var ops []verifmc.Op
 						for _, o := range base {
+							if o.kind == "report" && reportUnknownHangs {
+								absent := false
+								for _, p := range o.peers {
+									if _, ok := s.ps.peerState.nodes[c30Peers[p]]; !ok {
+										absent = true
+									}
+								}
+								if absent {
+									r.Outcome("report:not-executed(names-absent-peer,would-block)")
+									continue
+								}
+							}
 							ops = append(ops, o)
 							if o.kind == "tick" {
 								continue
 							}
-							d := c30Fresh(cfg)
-							for _, ho := range s.hist {
-								c30Apply(d, ho)
-							}
-							d.ctx.sensitive = false
-							p, _ := verifmc.Guard(func() { c30Apply(d, o) })
-							sens := d.ctx.sensitive
-							c30Release(d)
-							if sens && !p {
+							sens := false
+							fin, pmsg := verifmc.WithWatchdog(20*time.Second, func() {
+								d := c30Fresh(cfg)
+								for _, ho := range s.hist {
+									c30Apply(d, ho)
+								}
+								d.ctx.sensitive = false
+								c30Apply(d, o)
+								sens = d.ctx.sensitive
+								c30Release(d)
+							})
+							if fin && pmsg == "" && sens {
 								for pm := 1; pm < len(c30Perms); pm++ {
 									v := o
 									v.perm = pm
@@ -582,8 +620,9 @@ func TestVerif_C30(t *testing.T) {
 						}
 						return k + ":" + desc
 					},
-					Release: c30Release,
-					Depth:   depth,
+					Release:     c30Release,
+					Depth:       depth,
+					ElemTimeout: 20 * time.Second,
 				}
 				before := r.Counters["states"]
 				h.Explore(r)
